@@ -293,7 +293,15 @@ func (cb *crlBuilder) _doRebuild(sc *storageContext, forceNew bool, ignoreForceF
 
 		// if forceRebuild was requested, that should force a complete rebuild even if requested not too by forceNew
 		myForceNew := forceBuildFlag || forceNew
-		return buildCRLs(sc, myForceNew)
+		warnings, err := buildCRLs(sc, myForceNew)
+		if err != nil {
+			// The CRLs on disk may now be missing revocations that are
+			// already recorded (and reported to clients as successful);
+			// make sure the next reader or writer builds them again rather
+			// than serving them as current.
+			cb.forceRebuild.Store(true)
+		}
+		return warnings, err
 	}
 
 	return nil, nil
